@@ -1,8 +1,9 @@
-# C19 -- newer-strategy databases accept every write; the last applied one wins (sequential part)
+# C19 -- newer-strategy databases accept every write; the last applied one wins (sequential, interleaved, replicated)
 import itertools, random, re
 from nodegen import *
 import schedgen
 from schedgen import par, parse_par
+import clustergen
 
 ID = "C19"
 DRIVER = "node"
@@ -11,7 +12,9 @@ THEOREMS = ["C19_newer_never_refused", "C19_newer_reply_value", "C19_newer_apply
 STRENGTH = {t: "proof-unbounded" for t in THEOREMS}
 RULE = ("exhaustive sequences (length <= 4 quick / 5 thorough) of plain and versioned writes (versions -1..3) to keys of a "
         "'newer' database and of the administrative database, with a watcher, remove and snapshot+flush mixed in; seeded random "
-        "sequences on two keys with versions below/at/above the current one; distinct = distinct canonical trace; non-trivial = "
+        "sequences on two keys with versions below/at/above the current one; family p*: two clients under enumerated lock-level "
+        "interleavings (driver sched); family c*: 2-3 node clusters, writes from two clients of the primary with random FIFO delivery "
+        "orders, every replica compared with the last write issued; distinct = distinct canonical trace; non-trivial = "
         "at least one stale versioned write was resolved")
 ASSUMPTIONS = ["sequential execution: op ids grow with issue order, so every stale write is resolved in favour of the incoming change; "
                "the keep-old branch needs op-id inversions (two clients) and is covered by the schedule model",
@@ -26,7 +29,72 @@ ALPHA = [[C(1, "set a p")]] + [[C(1, "set-safe a %d q%d" % (v, v))] for v in (-1
 
 
 def driver_of(case):
-    return "sched" if case[0].startswith("p") else "node"
+    return "sched" if case[0].startswith("p") else "cluster" if case[0].startswith("c") else "node"
+
+
+def cluster_cases(tier, rng, dist):
+    """2-3 node clusters with a newer database: 2-8 plain and versioned writes (versions below, at and above the current one) to a / b
+    from two clients of the primary, random FIFO delivery steps in between; at the end the cluster settles"""
+    CC = clustergen.CC
+    out = []
+    n = {"quick": 200, "thorough": 3000, "search": 120}[tier]
+    for i in range(n):
+        nn = rng.choice([2, 3])
+        names, hdr, base = clustergen.setup(nn, "newer")
+        ops = list(base)
+        cur = {"a": 0, "b": 0}
+        for j in range(rng.randint(2, 8)):
+            key = rng.choice(["a", "a", "b"])
+            sid = rng.choice([0, 1])
+            if rng.random() < 0.3:
+                ops.append(CC("n1", sid, "set %s v%d" % (key, j)))
+            else:
+                ops.append(CC("n1", sid, "set-safe %s %d w%d" % (key, max(-1, rng.choice([-1, 0, 1, cur[key] - 1, cur[key], cur[key] + 1, 50])), j)))
+            cur[key] += 1
+            r = rng.random()
+            if r < 0.4:
+                ops += clustergen.random_steps(rng, names, rng.randint(1, 5))
+            elif r < 0.6:
+                ops.append(["settle"])
+        ops += [["settle"], CC("n1", 0, "get-safe a"), CC("n1", 0, "get-safe b")]
+        out.append(("c%d" % i, hdr, ops))
+    dist["cluster"] = n
+    return out
+
+
+def cluster_oracle(case, io, mo):
+    """no write refused; at quiescence every replica holds, for each key, the value of the last write the primary answered"""
+    fails = []
+    obs = clustergen.split_obs(io)
+    if len(obs) < len(case[2]):
+        return [("driver-died", "step %d" % len(obs))]
+    last = {}
+    for i, op in enumerate(case[2]):
+        if obs[i][0] == "PANIC":
+            fails.append(("panic", "step %d" % i))
+        if op[0] == "cmd":
+            w = clustergen.line_of(op).split(" ")
+            if w[0] in ("set", "set-safe"):
+                if obs[i][0] != "Ok":
+                    fails.append(("newer-refused", "step %d: '%s' answered %s" % (i, " ".join(w), obs[i][0])))
+                last[w[1]] = w[-1]
+    nodes = clustergen.parse_dump(obs[-1][3])
+    if not nodes:
+        return fails + [("driver-died", "no dump")]
+    for name, nd in sorted(nodes.items()):
+        if nd["dead"]:
+            fails.append(("service-thread-died", "node %s" % name))
+        keys = nd["dbs"].get("d1", {"keys": {}})["keys"]
+        for key, val in sorted(last.items()):
+            v = keys.get(key)
+            if v is None or v[0] != val:
+                fails.append(("replica-differs" if name != "n1" else "newer-wrong-value",
+                              "end: %s on %s is %r, the last write issued was %r" % (key, name, v and v[0], val)))
+        ref = nodes["n1"]["dbs"].get("d1", {"keys": {}})["keys"]
+        for key in last:
+            if key in keys and key in ref and keys[key][1] != ref[key][1]:
+                fails.append(("replica-version-differs", "end: %s on %s has version %d, on the primary %d" % (key, name, keys[key][1], ref[key][1])))
+    return fails
 
 
 def sched_cases(tier, rng, dist):
@@ -56,6 +124,7 @@ def gen_cases(tier, seed):
     rng = random.Random(seed)
     cases, dist = [], {"exhaustive": 0, "random": 0}
     cases += sched_cases(tier, rng, dist)
+    cases += cluster_cases(tier, random.Random(seed + 11), dist)
     maxlen, nrand = {"quick": (4, 2000), "thorough": (5, 30000), "search": (3, 2000)}[tier]
     k = 0
     for L in range(1, maxlen + 1):
@@ -136,6 +205,8 @@ def sched_oracle(case, io, mo):
 def oracle(case, io, mo):
     if case[0].startswith("p"):
         return sched_oracle(case, io, mo)
+    if case[0].startswith("c"):
+        return cluster_oracle(case, io, mo)
     fails = []
     obs = split_obs(io)
     dbname = "$admin" if any(op[0] == "cmd" and line_of(op).startswith("use-db $admin") for op in case[2][:6]) else "dn"
@@ -185,6 +256,8 @@ def oracle(case, io, mo):
 def nontrivial(case, io):
     if case[0].startswith("p"):
         return True
+    if case[0].startswith("c"):
+        return any(op[0] == "cmd" and clustergen.line_of(op).startswith("set-safe") for op in case[2])
     # a stale versioned write (version below the stored one) that was applied
     obs = split_obs(io)
     prev = {}
